@@ -508,21 +508,33 @@ func runC13(c *ctx) {
 				}
 			}
 		}
-		// concurrent merge: single flight
-		env := pop.instantiate()
-		g := newGate(func(op, file string) bool { return op == "create" })
-		env.Data.Gate = g.hook
-		done := make(chan error, 1)
-		go func() { _, err := env.Eng.Merge(context.Background()); done <- err }()
-		if g.waitBlocked(2 * time.Second) {
-			_, err2 := env.Eng.Merge(context.Background())
-			c.r.Case(true, fmt.Sprint("single-flight", pi))
-			if !errors.Is(err2, bs.ErrMergeInProgress) {
-				c.r.Add(Finding{Kind: "violation", Check: "merge-single-flight", Detail: fmt.Sprintf("a concurrent Merge returned %v, want ErrMergeInProgress", err2), Replay: map[string]any{"population": pi}})
+		// concurrent merges: single flight, wherever the first merge is when the second is called (its MetaStore
+		// listing, a source read, the output's create / write, the commit). The stores garbage-collect lazily here,
+		// so a second merge over a stale listing would show up as duplicated rows.
+		for _, parkOp := range []string{"iter", "yield", "open", "create", "write", "update"} {
+			env := pop.instantiate()
+			env.Meta.(*FaultMeta).yieldGate = true
+			env.Data.DeferTombstone = true
+			g := newGate(func(op, file string) bool { return op == parkOp })
+			env.Data.Gate = g.hook
+			done := make(chan error, 1)
+			go func() { _, err := env.Eng.Merge(context.Background()); done <- err }()
+			if g.waitBlocked(2 * time.Second) {
+				env.Data.Gate = nil
+				_, err2 := env.Eng.Merge(context.Background())
+				c.r.Case(true, fmt.Sprint("single-flight", pi, parkOp))
+				c.r.Hit("merge.single-flight." + parkOp)
+				if !errors.Is(err2, bs.ErrMergeInProgress) {
+					c.r.Add(Finding{Kind: "violation", Check: "merge-single-flight", Detail: fmt.Sprintf("a Merge called while another was parked at its %q step returned %v, want ErrMergeInProgress", parkOp, err2), Replay: map[string]any{"population": pi, "first_merge_parked_at": parkOp}})
+				}
+			}
+			env.Data.Gate = nil
+			g.release()
+			<-done
+			if got, qerr := visibleIDs(env.Eng); fmt.Sprint(got) != fmt.Sprint(beforeIDs) || qerr != nil {
+				c.r.Add(Finding{Kind: "violation", Check: "merge-content", Detail: fmt.Sprintf("visible rows changed across two overlapping Merge calls (first parked at %q): %v -> %v (query err %v)", parkOp, beforeIDs, got, qerr), Replay: map[string]any{"population": pi, "first_merge_parked_at": parkOp}})
 			}
 		}
-		g.release()
-		<-done
 	}
 	c.r.Exhaustive = true
 }
@@ -730,18 +742,23 @@ func runC10(c *ctx) {
 	}
 	// ---- timing monitor 2: the age of the OLDEST buffered row counts - a trickle of later batches (each well
 	// inside MaxBufferedTime of the previous one, no size limit reached) must not postpone the first answer
-	for i := 0; i < 2*c.scale; i++ {
-		mbt := time.Duration(120+60*i) * time.Millisecond
+	for i := 0; i < 2*max(c.scale/2, 1)*2; i++ {
+		mbt := time.Duration(120+40*i) * time.Millisecond
 		limit := 4*(mbt+100*time.Millisecond) + 200*time.Millisecond
 		ok := false
 		var took time.Duration
 		for attempt := 0; attempt < 3 && !ok; attempt++ {
 			cfg := bs.DefaultBloomSearchEngineConfig()
 			cfg.MaxBufferedTime = mbt
+			partitioned := i%2 == 1
+			if partitioned {
+				// every later batch opens a new partition buffer: the buffer's age still starts at its oldest row
+				cfg.PartitionFunc = partitionFunc("p")
+			}
 			env := NewEnv(cfg)
 			first := make(chan error, 1)
 			start := time.Now()
-			env.Eng.IngestRows(context.Background(), []map[string]any{{"_id": 1}}, first)
+			env.Eng.IngestRows(context.Background(), []map[string]any{{"_id": 1, "p": "t1"}}, first)
 			stopTrickle := make(chan struct{})
 			var wg sync.WaitGroup
 			wg.Add(1)
@@ -752,7 +769,7 @@ func runC10(c *ctx) {
 					case <-stopTrickle:
 						return
 					case <-time.After(mbt / 5):
-						env.Eng.IngestRows(context.Background(), []map[string]any{{"_id": k}}, nil)
+						env.Eng.IngestRows(context.Background(), []map[string]any{{"_id": k, "p": fmt.Sprint("t", k)}}, nil)
 					}
 				}
 			}()
